@@ -128,7 +128,9 @@ def safeT (s : St) (t : Dense) (axes : List Int) : Res (St × Dense) := do
   let r0 : Dense := { ap := { shape := [t.win.len], strides := [1], fin := true }, win := ⟨b, 0, t.win.len, t.win.len⟩,
                       dt := t.dt, eng := t.eng }
   let (s, r) ← copyDense s r0 t
-  pure (s, { r with ap := transform, old := some { t.ap with }, tw := some axes })
+  -- `t` lazily transposed itself: the restored pattern does not visit the (unmoved) storage in order
+  let oldAP : AP := if t.old.isSome then { t.ap with o := { t.ap.o with nonContig := true } } else t.ap
+  pure (s, { r with ap := transform, old := some oldAP, tw := some axes })
 
 /-- axes vector built by `RollAxis(axis, start)`; `none` = the tensor itself is returned. -/
 def rollAxes (dims : Nat) (axis start : Int) : Res (Option (List Int)) := do
